@@ -630,13 +630,14 @@ def run(ctx, only_entry=False):
            "grammar rule line", "")
     # validate_lines: limit, coverage, normalisation
     vb = p.need_body(PI + "validate_lines")
-    limit_ok = False
-    for blk in vb.blocks:
-        for s in blk["s"]:
-            if s["k"] == "assign" and s["r"]["k"] == "bin" and s["r"]["op"] == "Gt":
-                if mirutil.const_of(s["r"]["b"]) == lim["max_labels"]:
-                    limit_ok = True
-    chk.ob("labels/limit", limit_ok, "more than 40 label definitions are rejected (count > 40)", vb.loc(), "")
+    from .. import labelscan
+    ncount, bad_count = labelscan.count_cases(p, lim["max_labels"], ctx.tier == "thorough")
+    chk.ob("labels/limit", not bad_count,
+           "up to %d label definitions (labels and .EQU names together) are accepted and every larger number is rejected as "
+           "too many - including numbers a byte-sized counter would wrap" % lim["max_labels"], vb.loc(),
+           "; ".join(bad_count[:3]) or "%d (count, kind) cases" % ncount,
+           "abstract interpretation of validate_lines on concrete numbers of definitions with opaque names")
+    chk.floor("label count cases", ncount, 24)
     # label-bearing variants must have an explicit arm in the reference scan
     label_types = {"alloc::string::String", "L::parser::ast::Constant", "L::parser::ast::MemAddress",
                    "L::parser::ast::Source", "L::parser::ast::Destination"}
